@@ -172,22 +172,30 @@ def run(ctx, rep):
     c07.year_sites(F, rep, rule="R5", only_crate="cgt_mcp")
     fd = [b for b in F.bodies.values() if b.crate == "cgt_mcp" and b.kind == "method" and "Disposal" in b.ret and P.user_written(F, b)]
     for b in fd:
-        from rules.c08 import _R
+        from roles import guards_of
+        tb = Terms(F, b, inline_depth=0)
         keys = set()
-        rg = _R(F).region(b, depth=1)
-        for ex in rg.expansions:
-            hb, ht = ex["body"], ex["tb"]
-            conds = [ht.operand(hb.term(s)["discr"]) for s in hb.reachable() if hb.term(s)["k"] == "switch"]
-            if hb.kind == "closure" and hb.ret == "bool":
-                conds.append(ht.local(0))
-            for c in conds:
-                for x in subterms(c):
-                    if isinstance(x, tuple) and x and x[0] in ("cmp", "call"):
-                        txt = show(x)
-                        if ".date" in txt and x[0] == "cmp" and x[1] == "Eq":
-                            keys.add("date")
-                        if ".ticker" in txt and ("eq_ignore_ascii_case" in txt or (x[0] == "cmp" and x[1] == "Eq")):
-                            keys.add("ticker")
+        conds = []
+        # the conditions under which a disposal is RETURNED: branch edges dominating the Ok(..) construction, and the
+        # predicate closures inside the returned value's own term (`iter().find(|d| …)`)
+        for i, si, s in b.assigns():
+            rv = s["rv"]
+            if rv["k"] == "agg" and rv.get("adt") == "core::result::Result" and rv.get("variant") == "Ok":
+                conds += [c for c, v, sb in guards_of(b, tb, i)]
+                payload = tb.operand(rv["ops"][0])
+                for x in subterms(payload):
+                    if isinstance(x, tuple) and x and x[0] == "closure" and x[1] in F.bodies:
+                        cb = F.bodies[x[1]]
+                        ct = Terms(F, cb, inline_depth=0)
+                        conds += [ct.operand(cb.term(s_)["discr"]) for s_ in cb.reachable() if cb.term(s_)["k"] == "switch"] + [ct.local(0)]
+        for c in conds:
+            for x in subterms(c):
+                if isinstance(x, tuple) and x and x[0] in ("cmp", "call"):
+                    txt = show(x)
+                    if ".date" in txt and x[0] == "cmp" and x[1] == "Eq":
+                        keys.add("date")
+                    if ".ticker" in txt and ("eq_ignore_ascii_case" in txt or (x[0] == "cmp" and x[1] == "Eq")):
+                        keys.add("ticker")
         rep.ob("R5", f"{b.short}:lookup-key", keys == {"date", "ticker"},
                "disposal lookup compares date and ticker (case-insensitively), the key the report groups by" if keys == {"date", "ticker"}
                else f"disposal lookup compares {sorted(keys)}, the report groups by (date, ticker)", b.loc(), key=f"R5:{b.short}:lookup-key")
